@@ -89,6 +89,8 @@ pub fn run(out: &mut Out, tier: &str, seed: u64) {
             report(out, name, &bad, &r);
         }
         latch_cases(out, &bad);
+        let ss = scalar_stream(&mut rng);
+        latch_cases(out, &ss);
     }
 }
 
@@ -130,6 +132,27 @@ fn latch_cases(out: &mut Out, input: &[u8]) {
     });
     latch_report(out, "object_iter", &h, r);
     let _ = Value::new().is_null();
+    // typed streams: data errors (wrong type, out of range) must latch like syntax errors
+    let r = entry::guarded(|| {
+        let mut st = sonic_rs::Deserializer::from_slice(input).into_stream::<u8>();
+        transcript(|| st.next())
+    });
+    latch_report(out, "stream<u8>", &h, r);
+    let r = entry::guarded(|| {
+        let mut st = sonic_rs::Deserializer::from_slice(input).into_stream::<Vec<String>>();
+        transcript(|| st.next())
+    });
+    latch_report(out, "stream<Vec<String>>", &h, r);
+}
+
+/// streams of scalars of mixed types: "1 2 \"x\" 300 4 [\"a\"] ..."
+fn scalar_stream(rng: &mut Rng) -> Vec<u8> {
+    let mut s = String::new();
+    for _ in 0..rng.range(1, 8) {
+        s.push_str(*rng.pick(&["1", "2", "255", "256", "-1", "\"x\"", "[\"a\",\"b\"]", "[1]", "null", "true", "{}", "[", "1.5", "[\"a\",1]", "300", "7"]));
+        s.push(' ');
+    }
+    s.into_bytes()
 }
 
 fn latch_report(out: &mut Out, kind: &str, h: &str, r: Result<String, String>) {
